@@ -533,6 +533,13 @@ pub fn gen_c05(em: &mut Emitter, rng: &mut Rng) {
     if em.mine(base + 5) {
         surplus_response_forgery::<Ps>(em, &mut rng.sub(8006), "ps");
     }
+    // the byte-wise part of a decryptable encryption run on a substitute value (hand-written holder)
+    if em.mine(base + 8) {
+        crate::c10::verenc_byte_deviation::<Bbs>(em, &mut rng.sub(8009), "bbs", "c05");
+    }
+    if em.mine(base + 9) {
+        crate::c10::verenc_byte_deviation::<Ps>(em, &mut rng.sub(8010), "ps", "c05");
+    }
     // equality statements over 3..4 credentials whose values are only partially equal (every pairing pattern)
     if em.mine(base + 6) {
         c09_layouts::<Bbs>(em, &mut rng.sub(8007), "bbs", "c05");
@@ -555,8 +562,15 @@ fn c09_suite<S: ShortGroupSignatureScheme + 'static>(em: &mut Emitter, base: &mu
         let n_claims = 4 + rng.below(3) as usize;
         // equality on claim position `pos` (name: hashed, age: number, ssn: scalar)
         let pos = [1usize, 2, 3][k % 3];
+        // two scenarios in five disclose two other claims whose labels sort differently from their schema positions
+        // (name/age, ssn/level, name/level): revealed lists built from labels and from indices then differ in order
+        let disclose_pair: Option<(usize, usize)> = if k % 5 == 1 || k % 5 == 2 { Some(match pos { 1 => (3, 4), 2 => (1, 4), _ => (1, 2) }) } else { None };
+        let n_claims = if disclose_pair.is_some() { n_claims.max(5) } else { n_claims };
         let mut mix = Mix { n_creds: n_creds.min(3), n_claims, age: 30, equality: true, ..Default::default() };
-        mix.disclosed = (0..mix.n_creds).map(|_| vec![]).collect();
+        mix.disclosed = (0..mix.n_creds).map(|c| match disclose_pair {
+            Some((a, b)) if c == 0 || k % 5 == 2 => vec![LABELS[a].to_string(), LABELS[b].to_string()],
+            _ => vec![],
+        }).collect();
         if k % 4 == 3 {
             mix.commitment = Some(pos);
         }
